@@ -1362,3 +1362,179 @@ def c17_integrate_1d():
                               finding_key='C17/Cache1D.integrate/%s' % tag))
         return out
     return go()
+
+
+# ---------------------------------------------------------------- C18: low-pass helpers
+def c18_split_list():
+    """split_list_by_lengths(xs, ls)[i] is xs[sum(ls[:i]) : sum(ls[:i+1])] -- consecutive, in order, nothing skipped or repeated."""
+    oid = 'C18/LowPass.py:split_list_by_lengths'
+    fn = 'dadi/LowPass/LowPass.py::split_list_by_lengths'
+
+    @guarded(oid, fn)
+    def go():
+        out = []
+        for ls in ((1,), (2, 1), (1, 2, 3), (3, 0, 2), (2, 2, 2, 1)):
+            ex = Executor()
+            f = ex.func('dadi/LowPass/LowPass.py', 'split_list_by_lengths')
+            xs = [Tm('x%d' % i) for i in range(sum(ls) + 1)]
+            paths = ex.run(f, [VList(list(xs)), VList(list(ls))], {})
+            tag = '%s.lengths%s' % (oid, '_'.join(map(str, ls)))
+            if len(paths) != 1 or paths[0].outcome != 'return':
+                out.append(struct(tag, False, 'expected one returning path: %r' % paths[:2], fn, undecided=True))
+                continue
+            v = paths[0].value
+            got = [[id(e) for e in ex.iterate(sub)] for sub in ex.iterate(v)]
+            want, s = [], 0
+            for l in ls:
+                want.append([id(e) for e in xs[s:s + l]])
+                s += l
+            out.append(struct(tag, got == want, 'sublist i is the i-th consecutive block of the stated length' if got == want else 'blocks differ: positions %r' % ([[xs_i for xs_i, e in enumerate(xs) if id(e) in g] for g in got],), fn))
+        return out
+    return go()
+
+
+def c18_projection_inbreeding(n, k):
+    """projection_inbreeding(partition, k): with genotypes g_i in {0,1,2} for n individuals, entry s of the result is
+         #{ k/2-subsets of individuals whose genotypes sum to s } / C(n, k/2)
+    -- every subset of individuals counted once, *with* multiplicity (equal genotype tuples are different subsets);
+    the result sums to one."""
+    oid = 'C18/LowPass.py:projection_inbreeding/n%d_k%d' % (n, k)
+    fn = 'dadi/LowPass/LowPass.py::projection_inbreeding'
+
+    @guarded(oid, fn)
+    def go():
+        import math
+        ex = Executor()
+        f = ex.func('dadi/LowPass/LowPass.py', 'projection_inbreeding')
+        g = [z3.Int('g%d' % i) for i in range(n)]
+        hy = [z3.And(x >= 0, x <= 2) for x in g]
+        paths = ex.run(f, [VList(list(g)), k], {}, base_pc=hy)
+        rets = [p for p in paths if p.outcome == 'return']
+        if len(rets) != len(paths) or not rets:
+            return [struct(oid, False, 'a path does not return: %r' % [p for p in paths if p.outcome != 'return'][:2], fn, undecided=True)]
+        tot = math.comb(n, k // 2)
+
+        def replay(model):
+            import numpy
+            from dadi.LowPass import LowPass
+            part = [int(model.get('g%d' % i, 0)) for i in range(n)]
+            r = LowPass.projection_inbreeding(part, k)
+            want = numpy.zeros(k + 1)
+            for c in itertools.combinations(part, k // 2):
+                want[sum(c)] += 1
+            want /= tot
+            return dict(reproduced=bool(abs(r - want).max() > 1e-12), input=dict(partition=part, k=k), got=list(map(float, r)), want=list(map(float, want)))
+        out = []
+        for pi, p in enumerate(rets):
+            tag = oid if len(rets) == 1 else '%s.path%d' % (oid, pi)
+            res = [to_real(exact(x)) for x in ex.iterate(p.value)]
+            out.append(struct(tag + '.length', len(res) == k + 1, 'k+1 entries (got %d)' % len(res), fn))
+            for s in range(min(k + 1, len(res))):
+                cnt = z3.Sum([z3.If(z3.Sum(list(c)) == s, z3.RealVal(1), z3.RealVal(0)) for c in itertools.combinations(g, k // 2)])
+                out.append(prove('%s.entry%d' % (tag, s), hy + list(p.pc), res[s] * tot == cnt, fn, replay=replay))
+            out.append(prove(tag + '.sums-to-one', hy + list(p.pc), z3.Sum(res) == 1, fn, replay=replay))
+        return out
+    return go()
+
+
+def c18_enough_covered(nseq, nsub):
+    """probability_enough_individuals_covered = P[ Binomial(N, q) >= m ] written out,
+         sum_{c=m}^{N} C(N,c) p0^(N-c) q^c,   N = nseq/2 - 1, m = ceil(nsub/2) - 1, p0 = P(depth 0), q = sum of the other depths;
+    with m = 0 it is (p0+q)^N, i.e. one for a normalised distribution."""
+    oid = 'C18/LowPass.py:probability_enough_individuals_covered/nseq%d_nsub%d' % (nseq, nsub)
+    fn = 'dadi/LowPass/LowPass.py::probability_enough_individuals_covered'
+
+    @guarded(oid, fn)
+    def go():
+        import math
+        ex = Executor()
+        f = ex.func('dadi/LowPass/LowPass.py', 'probability_enough_individuals_covered')
+        pr = reals('p', 4)
+        cd = VList([VList([0, 1, 2, 3], 'ndarray'), VList(list(pr), 'ndarray')], 'ndarray')
+        paths = ex.run(f, [cd, nseq, nsub], {})
+        if len(paths) != 1 or paths[0].outcome != 'return':
+            return [struct(oid, False, 'expected one returning path: %r' % paths[:2], fn, undecided=True)]
+        v = to_real(exact(paths[0].value))
+        N, m = nseq // 2 - 1, -(-nsub // 2) - 1
+        p0, q = pr[0], pr[1] + pr[2] + pr[3]
+        def pw(x, e):
+            r = z3.RealVal(1)
+            for _ in range(e):
+                r = r * x
+            return r
+        want = z3.RealVal(0)
+        for c in range(m, N + 1):
+            want = want + math.comb(N, c) * pw(p0, N - c) * pw(q, c)
+        out = [prove_eq(oid + '.binomial-tail', list(paths[0].pc), v, want, fn)]
+        if m == 0:
+            out.append(prove_eq(oid + '.certain', list(paths[0].pc), v, pw(p0 + q, N), fn))
+        return out
+    return go()
+
+
+def c18_projection_matrix(nseq, nsub):
+    """projection_matrix(nseq, nsub, F): for F = 0 row a is exactly _cached_projection(nsub, nseq, a) (the hypergeometric projection of C08);
+    for F != 0 row a is  sum_i prob_i * projection_inbreeding(partition_i, nsub)  over the partitions of allele frequency a
+    returned by partitions_and_probabilities(nseq, 'allele_frequency', F, a)."""
+    oid = 'C18/LowPass.py:projection_matrix/nseq%d_nsub%d' % (nseq, nsub)
+    fn = 'dadi/LowPass/LowPass.py::projection_matrix'
+
+    @guarded(oid, fn)
+    def go():
+        F = z3.Real('F')
+        pp_calls = []
+
+        def pol(fref):
+            if fref.qualname == '_cached_projection':
+                def h(ex, fr, args, kwargs):
+                    return VList([z3.Real('P(%s)[%d]' % (','.join(str(exact(a)) for a in args), j)) for j in range(nsub + 1)], 'ndarray')
+                return h
+            if fref.qualname == 'partitions_and_probabilities':
+                def h2(ex, fr, args, kwargs):
+                    pp_calls.append(tuple(args))
+                    a = exact(args[3]) if len(args) > 3 else None
+                    return (VList([Tm('part%s_%d' % (a, i)) for i in range(2)]), VList([z3.Real('prob%s_%d' % (a, i)) for i in range(2)], 'ndarray'))
+                return h2
+            if fref.qualname == 'projection_inbreeding':
+                def h3(ex, fr, args, kwargs):
+                    if exact(args[1]) != nsub:
+                        raise PyRaise('ContractViolation', 'projection_inbreeding called with k=%r, expected n_subsampling' % (args[1],))
+                    return VList([z3.Real('PI(%s)[%d]' % (vrepr(args[0]), j)) for j in range(nsub + 1)], 'ndarray')
+                return h3
+            return 'inline' if fref.qualname == 'projection_matrix' else 'abstract'
+        ex = Executor(policy=pol)
+        f = ex.func('dadi/LowPass/LowPass.py', 'projection_matrix')
+        paths = ex.run(f, [nseq, nsub, F], {})
+        rets = [p for p in paths if p.outcome == 'return']
+        out = []
+        if len(rets) != len(paths) or not rets:
+            return [struct(oid, False, 'a path does not return: %r' % [p for p in paths if p.outcome != 'return'][:2], fn, undecided=True)]
+        seen = set()
+        for p in rets:
+            s_ = z3.Solver()
+            s_.add(*p.pc)
+            s_.add(F == 0)
+            outbred = s_.check() == z3.sat
+            tag = 'F0' if outbred else 'Fnonzero'
+            if tag in seen:
+                out.append(struct('%s.%s.single-path' % (oid, tag), False, 'more than one path for this case', fn, undecided=True))
+                continue
+            seen.add(tag)
+            rows = [ex.iterate(r) for r in ex.iterate(p.value)]
+            if len(rows) != nseq + 1 or any(len(r) != nsub + 1 for r in rows):
+                out.append(struct('%s.%s.shape' % (oid, tag), False, 'shape is not (nseq+1, nsub+1)', fn))
+                continue
+            for a in range(nseq + 1):
+                for j in range(nsub + 1):
+                    if outbred:
+                        want = z3.Real('P(%d,%d,%d)[%d]' % (nsub, nseq, a, j))
+                    else:
+                        want = sum(z3.Real('prob%d_%d' % (a, i)) * z3.Real('PI(part%d_%d)[%d]' % (a, i, j)) for i in range(2))
+                    out.append(prove_eq('%s.%s.row%d.col%d' % (oid, tag, a, j), list(p.pc), rows[a][j], want, fn))
+            if not outbred:
+                ok = len(pp_calls) >= nseq + 1 and all(exact(c[0]) == nseq and exact(c[1]) == 'allele_frequency' and c[2] is F or (z3.is_expr(c[2]) and c[2].eq(F)) for c in pp_calls)
+                out.append(struct('%s.%s.partition-arguments' % (oid, tag), bool(ok), "partitions_and_probabilities(n_sequenced, 'allele_frequency', F, a)", fn))
+        if seen != {'F0', 'Fnonzero'}:
+            out.append(struct(oid + '.cases', False, 'cases explored: %s' % sorted(seen), fn, undecided=True))
+        return out
+    return go()
